@@ -911,7 +911,8 @@ class Func:
                 self.fail(s, "'%s' is assigned in the loop but has no value before it" % v)
             if env[v]["ct"] in ("ptr", "bufptr"):
                 self.fail(s, "pointer variable assigned in a loop")
-        ro = [v for v in env if v not in av and env[v]["init"]]
+        used = {x["referencedDecl"].get("name") for x in walk(s) if x.get("kind") == "DeclRefExpr"}
+        ro = [v for v in env if v not in av and env[v]["init"] and v in used]   # read-only variables the loop mentions
         def typ(v):
             return "Int" if env[v]["ct"] == "bufptr" else self.ltype(env[v]["ct"])
         def nm(v):
